@@ -98,3 +98,27 @@ theorem first_order_of_min [CompleteSpace E] {f : E → ℝ} {g : E → E} {C : 
   simpa [InnerProductSpace.toDual_apply_apply] using this
 
 end QM.C11
+
+/-! ## the CVXPY objective with equal shot counts -/
+namespace QM.C11
+section cvx
+variable {K : Type} [Field K] [LinearOrder K] [IsStrictOrderedRing K]
+
+theorem lsum_cons' (a : K) (l : List K) : lsum (a :: l) = a + lsum l := rfl
+
+theorem lsum_replicate (S : Nat) (n : K) : lsum (List.replicate S n) = S * n := by
+  induction S with
+  | zero => simp [lsum]
+  | succ k ih => rw [List.replicate_succ, lsum_cons', ih]; push_cast; ring
+
+theorem weighted_const (c : K) (l : List (List K × List K)) :
+    lsum (((List.replicate l.length c).zip l).map fun (cpq : K × List K × List K) => cpq.1 * sqErr cpq.2.1 cpq.2.2)
+      = c * lsum (l.map fun pq => sqErr pq.1 pq.2) := by
+  induction l with
+  | nil => simp [lsum]
+  | cons a l ih =>
+    rw [List.length_cons, List.replicate_succ, List.zip_cons_cons, List.map_cons, List.map_cons, lsum_cons', lsum_cons', ih]
+    ring
+
+end cvx
+end QM.C11
